@@ -360,23 +360,26 @@ def run_stateless(prop, entries):
     t0 = time.time()
     obs = []
     shas = []
-    for mod, cname, _ in entries:
+    for entry in entries:
+        mod, cname = entry[0], entry[1]
+        allowed = set(entry[3]) if len(entry) > 3 else set()
         cnode, meths = class_methods(mod, cname)
         shas.append(hashlib.sha256(ast.unparse(cnode).encode()).hexdigest()[:16])
         ws = []
         for name, fn in sorted(meths.items()):
             if name == "__init__":
                 continue
-            ws += writes_in(fn, [(("self",), "self")], "%s.%s.%s" % (mod, cname, name))
+            ws += [w for w in writes_in(fn, [(("self",), "self")], "%s.%s.%s" % (mod, cname, name)) if w.field not in allowed]
         obs.append({"id": "%s.%s/frame:writes-no-field-of-self" % (mod, cname), "kind": "frame",
                     "verdict": "proved" if not ws else "failed", "ms": 0.0, "solver": "syntactic",
-                    "detail": ("no method other than __init__ assigns or mutates a field of self (%d methods)" % (len(meths) - (1 if "__init__" in meths else 0)))
+                    "detail": ("no method other than __init__ assigns or mutates a field of self%s (%d methods)" % (
+                        (" other than " + ", ".join(sorted(allowed))) if allowed else "", len(meths) - (1 if "__init__" in meths else 0)))
                     if not ws else "state carried from one token to the next: " + "; ".join("%s (%s at %s)" % (w.field, w.how, w.where) for w in ws[:6]),
                     "model": None, "path": 0, "tags": [prop]})
     return [{"task": ["spec.frames", "stateless", 0], "target": "stateless(%s)" % prop, "obligations": obs, "paths": 1,
              "completed_paths": 1, "error": None, "out_of_reach": [], "inlined": [], "assumed": [], "notes": [],
              "solver_ms": 0, "queries": 0, "wall_s": round(time.time() - t0, 2),
-             "function": {"name": "statelessness of " + ", ".join("%s.%s" % (m, c) for m, c, _ in entries),
+             "function": {"name": "statelessness of " + ", ".join("%s.%s" % (e[0], e[1]) for e in entries),
                           "file": entries[0][0].replace(".", "/") + ".py", "lines": [1, 1],
                           "sha256": hashlib.sha256(repr(shas).encode()).hexdigest()[:16], "contract": "spec.frames.STATELESS", "case": None}}]
 
